@@ -9,7 +9,7 @@ def record_and_validate(chk, tier):
     thorough = tier == "thorough"
     exe = vlib.compile_harness("rec_vecnorm", ["rec_vecnorm.cpp"])
     w = chk.work
-    count = 12 if thorough else 1
+    count = 8 if thorough else 1
     files = vlib.parallel(lambda i: vlib.run_to_file([exe, str(vlib.SEED * 16 + i + 1), str(count)], os.path.join(w, "vn%02d.ndjson" % i)), range(16))
     allp = os.path.join(w, "all.ndjson")
     seen = set()
